@@ -107,6 +107,21 @@ def resource_budgets(F, rep, T):
            "every variable read, call and temporary stays live until the function ends, so a body of about 70 ordinary "
            "statements (or 125 top-level definitions next to the standard library's 80) has more than 200 locals and the chunk "
            "does not load" % (len(declaring), ", ".join(declaring[:6])), sites=len(declaring))
+    # .. what is already free stays free: a plain assignment `x = v` hands the value over through a temporary that is written
+    # without `local` (or is inlined into its one use), so assignments alone never fill the 200 slots
+    sa = [a for a in T.stmt if a["label"] == "Assignment"]
+    alts = [it for it in (sa[0]["items"] if sa and sa[0]["items"] else []) if it[0] == "alt" and "Nop" in it[2]]
+    if not alts:
+        rep.anchor_missing("op alternatives of the Assignment template (budget)")
+    for it in alts:
+        nop = dict(zip(it[2], it[1])).get("Nop", [])
+        costly = [o[1] for o in nop if o[0] == "op" and (T.S.get(o[1], {}).get("text_many") or "").startswith("local ")
+                  and not T.S[o[1]]["inlinable"]]
+        rep.ob("BUDGET", "plain-assignment|costs-no-local", bool(nop) and not costly,
+               "the temporary of `x = v` is written by %s, which declares no Lua local" % [o[1] for o in nop] if nop and not costly else
+               "the temporary of a plain assignment is written by IR::%s, whose template starts with `local`: every `x = v` of a function "
+               "body then takes one of Lua's 200 local slots for good, and a function with some 200 assignments - accepted by the "
+               "compiler - is refused by the Lua loader (`too many local variables`)" % (costly[0] if costly else "?"))
     lua = F.fn("sylt_compiler::lua::Generator::expand") if "sylt_compiler::lua::Generator::expand" in F.fns else None
     capped = False
     if lua is not None:
